@@ -367,6 +367,39 @@ fn main() {
                 let ok = if a[1] == "int" { vt::checked_int_length(v, &mut buf) } else { vt::checked_short_length(v, &mut buf) };
                 format!("{} {}", if ok { "OK" } else { "ERR" }, if buf.is_empty() { "-".to_string() } else { hex(&buf) })
             }
+            // addvalue <prefix count> <mismatch|tuple_second|udt_excess|udt_missing|ok>: real SerializedValues with `prefix` ints bound, then one more value;
+            // a failing value must leave the list byte-for-byte intact: ERR-UNCHANGED / ERR-CHANGED <before> <after> / OK <count>
+            "addvalue" => {
+                use scylla_cql_core::frame::response::result::UserDefinedType;
+                use scylla_cql_core::value::CqlValue;
+                use vk_core::c16_types::S3;
+                let mut sv = SerializedValues::new();
+                let ti = ColumnType::Native(NativeType::Int);
+                for i in 0..a[1].parse::<i32>().unwrap() {
+                    sv.add_value(&(i + 7), &ti).unwrap();
+                }
+                let snapshot = |s: &SerializedValues| { let mut b = Vec::new(); s.write_to_request(&mut b); (s.element_count(), b) };
+                let before = snapshot(&sv);
+                let udt = |names: &[&str]| ColumnType::UserDefinedType {
+                    frozen: false,
+                    definition: std::sync::Arc::new(UserDefinedType { name: "t".into(), keyspace: "k".into(),
+                        field_types: names.iter().map(|n| (Cow::Owned(n.to_string()), ColumnType::Native(NativeType::Int))).collect() }),
+                };
+                let r = match a[2] {
+                    "mismatch" => sv.add_value(&5i32, &ColumnType::Native(NativeType::Text)),
+                    "tuple_second" => sv.add_value(&(5i32, 6i64), &ColumnType::Tuple(vec![ColumnType::Native(NativeType::Int), ColumnType::Native(NativeType::Int)])),
+                    "udt_excess" => sv.add_value(&CqlValue::UserDefinedType { keyspace: "k".into(), name: "t".into(),
+                        fields: vec![("a".into(), Some(CqlValue::Int(1))), ("b".into(), Some(CqlValue::Int(2))), ("zz".into(), Some(CqlValue::Int(3)))] }, &udt(&["a", "b"])),
+                    "udt_missing" => sv.add_value(&S3 { a: 1, b: 2, c: 3 }, &udt(&["a", "b"])),
+                    _ => sv.add_value(&5i32, &ti),
+                };
+                let after = snapshot(&sv);
+                match r {
+                    Ok(()) => format!("OK {}", after.0),
+                    Err(_) if after == before => "ERR-UNCHANGED".to_string(),
+                    Err(_) => format!("ERR-CHANGED count {}->{} bytes {}->{}", before.0, after.0, hex(&before.1), hex(&after.1)),
+                }
+            }
             // errbody <negotiated rate-limit error code|-> <body hex|->: Error::deserialize of an ERROR body, rendered canonically (texts as written, ids in hex)
             "errbody" => {
                 use scylla_cql_core::frame::protocol_features::ProtocolFeatures;
